@@ -163,6 +163,41 @@ type roundReport struct {
 	Logs    map[string][]string `json:"logs,omitempty"`
 }
 
+// every result ever observed for one (kind, source, parameter contents): equal inputs must give equal results,
+// whatever was called before (in this process or any other)
+var observed = map[string]map[string]bool{}
+
+func observe(c concCall, r callResult) {
+	pm := "nil"
+	if c.Map != "nil" {
+		b, _ := json.Marshal(freshMaps()[c.Map])
+		pm = string(b)
+	}
+	key := c.Kind + "|" + sourceFor(c) + "|" + pm
+	val := r.SQL + "|" + r.Err
+	if observed[key] == nil {
+		observed[key] = map[string]bool{}
+	}
+	observed[key][val] = true
+}
+
+// the parameter p is inserted verbatim: a call that uses p must show its own map's snippet
+func wrongSnippet(c concCall, r callResult) string {
+	if c.Kind != "" && c.Kind != "compile" || r.Err != "" || !strings.Contains(sourceFor(c), " p") {
+		return ""
+	}
+	want := "\"p\""
+	if c.Map != "nil" {
+		want = freshMaps()[c.Map]["p"]
+	}
+	for _, other := range []string{"$1", "$2", "\"p\""} {
+		if other != want && strings.Contains(r.SQL, other) && !strings.Contains(r.SQL, want) {
+			return fmt.Sprintf("the SQL contains %s where this call's parameter map gives %s", other, want)
+		}
+	}
+	return ""
+}
+
 // runRound executes one round of concurrent calls.  With a schedule the
 // goroutines follow it by the clock; otherwise they run freely.
 func runRound(r concRound, reset bool, rng *rand.Rand, record bool) roundReport {
@@ -237,6 +272,12 @@ func runRound(r concRound, reset bool, rng *rand.Rand, record bool) roundReport 
 	// every result equals the sequential result for the same source and parameters
 	for _, g := range gs {
 		for i, c := range r.Calls[g] {
+			observe(c, results[g][i])
+			if msg := wrongSnippet(c, results[g][i]); msg != "" {
+				rep.Problem = "a call was influenced by another call's parameters"
+				rep.Detail = map[string]any{"goroutine": g, "call": c, "source": sourceFor(c), "result": results[g][i], "why": msg}
+				return rep
+			}
 			for v := 0; v < 3; v++ {
 				want := doCall(c, freshMaps(), v)
 				if results[g][i] != want {
@@ -255,6 +296,8 @@ var freeSources = []string{
 	"T | where not(a) and isnull(b) | summarize count() by c", "T | join kind=nosuch (B) on k", "T | where", "T | where strcat(a, p, 'x') =~ 'y'",
 	"T | join (B | where tolower(b) == p) on k | top 3 by k", "let n = now(); T | extend t = n | take 5", "T | where not()", "",
 	"T | project a, b | sort by a | take 1 | count", "let x = nosuch; T", "T; U",
+	"let p = 5", "let zz = 1;;", "let a = 'x'", "let p = p", "T | where a == p | take 3", "let q = p; T | where b == q", "T | join (B) on k, $left.a == p", "T | where a == p",
+	"T | where a > 1 | project a | sort by a | take 2 | count", "T | summarize count() by a | join (B | take 1) on a | as X | count",
 }
 
 // cmdConcWorker: runs rounds from a file; writes a report.
@@ -305,6 +348,8 @@ func cmdConcWorker(a args) {
 	}
 	bts, _ := json.Marshal(outs)
 	os.WriteFile(a.str("out", "worker.json"), bts, 0o666)
+	ob, _ := json.Marshal(observed)
+	os.WriteFile(a.str("out", "worker.json")+".observed", ob, 0o666)
 }
 
 // cmdConcReplay: orchestrates -race workers.
@@ -408,6 +453,19 @@ func cmdConcReplay(a args) {
 				concTraces = append(concTraces, map[string]any{"calls": o.Spec.Calls, "logs": o.Report.Logs})
 			}
 		}
+		if ob2, err := os.ReadFile(of + ".observed"); err == nil {
+			var m map[string]map[string]bool
+			json.Unmarshal(ob2, &m)
+			for k, vs := range m {
+				if allObserved[k] == nil {
+					allObserved[k] = map[string]bool{}
+				}
+				for v := range vs {
+					allObserved[k][v] = true
+				}
+			}
+			os.Remove(of + ".observed")
+		}
 		os.Remove(rf)
 		os.Remove(of)
 	}
@@ -419,6 +477,18 @@ func cmdConcReplay(a args) {
 	}
 	for f := 0; f < a.int("fresh-processes", 10); f++ {
 		runWorker(fmt.Sprintf("fresh%d", f), nil, 3, true, seed*1000+int64(f))
+	}
+	// equal inputs, equal results: over all rounds, bursts and processes of this run
+	res.Checks["distinct_inputs_observed"] = len(allObserved)
+	for k, vs := range allObserved {
+		if len(vs) > 1 {
+			var list []string
+			for v := range vs {
+				list = append(list, v)
+			}
+			res.violate(Violation{Property: "C14", Kind: "concurrent_result", InputB64: b64(k), Observed: list,
+				Reason: "the same source and parameter contents gave different results at different points of the run (history or interleaving dependence)"})
+		}
 	}
 	// traces for TLC
 	tf, err := os.Create(a.str("trace", filepath.Join(dir, "conc.ndjson")))
@@ -439,6 +509,7 @@ func cmdConcReplay(a args) {
 }
 
 var concTraces []map[string]any
+var allObserved = map[string]map[string]bool{}
 
 // cmdConcTraceCheck: TLC's verdicts on the hook logs.
 func cmdConcTraceCheck(a args) {
